@@ -662,7 +662,7 @@ package desync
 //@ func (p *Protocol) ReadMessage
 //@   prop C19
 //@   checks alloc
-//@   modifies all, $consumed, $rp
+//@   modifies all, $consumed, $rp, $wn
 //@   ensures $consumed >= old($consumed)
 //@   ensures r1 == nil ==> len(r0.Body) + 16 <= $consumed - old($consumed)
 
@@ -670,7 +670,7 @@ package desync
 //@   prop C19 C04
 //@   checks alloc
 //@   requires $consumed >= 0
-//@   modifies all, $consumed, $items, $alg, $rp
+//@   modifies all, $consumed, $items, $alg, $rp, $wn
 //@   safety C19
 //@   ghost@after:Next $items = as($r0, FormatTable).Items
 //@   ensures @C04 err == nil ==> tableMatches(c.Chunks, $items)
@@ -695,7 +695,7 @@ package desync
 //@   checks alloc
 //@   requires $consumed >= 0
 //@   requires @C18 confined(a.dir)
-//@   modifies all, $consumed, $rp
+//@   modifies all, $consumed, $rp, $wn
 //@   ensures $consumed >= old($consumed)
 //@   ensures @C18 confined(a.dir) && (r1 == nil ==> nodeConfined(r0))
 //@   loop 1: invariant $consumed >= old($consumed) && confined(a.dir) && (name == "" || safeName(name))
